@@ -22,3 +22,20 @@ Theorem C19_accepted_names_distinct : forall paths name,
   NoDup (map (fun p => stem (last_segment p)) ((dir ++ [slash] ++ name) :: paths)).
 Proof. exact accepted_names_distinct. Qed.
 Print Assumptions C19_accepted_names_distinct.
+
+(* packDirectory with bitWidth > 0: a HAMT of width 2 << bitWidth.  For every bit width 2..9 (fanout 8..1024), every
+   8-byte name hash and every list of children with distinct non-empty last path segments, reading the stored
+   directory back resolves every child's name to its root, lists every child exactly once and counts them *)
+From UV Require Import Testutil.PackSharded Hamt.Read Hamt.Refine Base.Varint.
+Theorem C19_pack_sharded_readback : forall H : bytes -> bytes, (forall k, wf_bytes (H k) = true) -> (forall k, length (H k) = 8%nat) ->
+  forall bitWidth children root sz,
+  2 <= bitWidth <= 9 ->
+  NoDup (map (fun c => last_segment (fst (fst c))) children) ->
+  Forall (fun c => last_segment (fst (fst c)) <> []) children ->
+  pack_sharded H bitWidth children = Ok (root, sz) ->
+  (forall c, In c children ->
+     fst (Read.lookup nofault root (H (last_segment (fst (fst c)))) (last_segment (fst (fst c)))) = Ok (snd c))
+  /\ Permutation (map snd (iterate nofault root)) (map (fun c => IYield (last_segment (fst (fst c))) (snd c)) children)
+  /\ fst (shard_length nofault root) = Ok (N.of_nat (length children)).
+Proof. exact pack_sharded_readback. Qed.
+Print Assumptions C19_pack_sharded_readback.
